@@ -25,6 +25,11 @@ INT, BOOL, STR, REAL, NULLT = "int", "bool", "str", "real", "null"
 # coalesce / min / max over different forms); payload = its text-order key (sem_sqlite.text_key).
 DATE, DT, DT0, DTX = "date", "datetime", "datetime0", "temporal-text"
 TEMPORAL = (DATE, DT, DT0, DTX)
+# source-schema markers: a Datetime column whose *Polars frame* has millisecond / nanosecond time
+# unit (the values are microsecond instants all the same; SEM_polars reads the physical unit from
+# the scan schema of the plan and carries it until the plan casts it)
+DT_MS, DT_NS = "datetime:ms", "datetime:ns"
+DT_UNITS = (DT_MS, DT_NS)
 US_DAY = 86_400_000_000
 # bounded domain of symbolic dates: 1960-01-01 .. 2099-12-31 (DESIGN 2.1 Bounds)
 DAY_LO, DAY_HI = -3653, 47481
@@ -37,13 +42,13 @@ def fresh(prefix: str, sort):
 
 
 def zsort(ty):
-    if ty in TEMPORAL:
+    if ty in TEMPORAL or ty in DT_UNITS:
         return z3.IntSort()
     return {INT: z3.IntSort(), BOOL: z3.BoolSort(), STR: z3.StringSort(), REAL: z3.RealSort()}[ty]
 
 
 def zdefault(ty):
-    if ty in TEMPORAL:
+    if ty in TEMPORAL or ty in DT_UNITS:
         return z3.IntVal(0)
     return {INT: z3.IntVal(0), BOOL: z3.BoolVal(False), STR: z3.StringVal(""), REAL: z3.RealVal(0)}[ty]
 
@@ -607,14 +612,16 @@ class SymInput:
                     self.constraints += [v == z3.ToReal(m) / 4, m >= -4 * int_bound, m <= 4 * int_bound]
                 if ty == DATE:
                     self.constraints += [v >= DAY_LO, v <= DAY_HI]
-                if ty == DT:
+                if ty in (DT, DT_MS, DT_NS):
                     self.constraints += [v >= DAY_LO * US_DAY, v < (DAY_HI + 1) * US_DAY]
+                if ty == DT_MS:
+                    self.constraints.append(v % 1000 == 0)
                 if ty == STR:
                     if str_len is not None:
                         self.constraints.append(z3.Length(v) <= str_len)
                     if str_alphabet is not None:
                         self.constraints.append(z3.InRe(v, z3.Star(str_alphabet)))
-                cells.append(Cell(ty, nl, v))
+                cells.append(Cell(DT if ty in DT_UNITS else ty, nl, v))
             data[col] = cells
         present = [self.nrows > i for i in range(nmax)]
         ok = [z3.IntVal(i) for i in range(nmax)]
@@ -660,7 +667,7 @@ def lit_val(v, ty):
         return z3.BoolVal(bool(v))
     if ty == DATE:
         return z3.IntVal(date_to_days(v))
-    if ty in (DT, DT0):
+    if ty in (DT, DT0, DT_MS, DT_NS):
         return z3.IntVal(dt_to_us(v))
     return z3.StringVal(v)
 
@@ -670,7 +677,7 @@ def pyval(z, ty):
         return z.as_long()
     if ty == DATE:
         return days_to_date(z.as_long())
-    if ty in (DT, DT0):
+    if ty in (DT, DT0, DT_MS, DT_NS):
         return us_to_dt(z.as_long())
     if ty == BOOL:
         return z3.is_true(z)
